@@ -112,6 +112,8 @@ fn run_kind(kind: &str, body_len: usize, chunk: usize) -> Option<String> {
     let rb = match kind {
         "static_str" | "static_utf8" => ResponseBody::StaticStr(Box::leak(String::from_utf8(body.clone()).unwrap().into_boxed_str())),
         "static_bytes" => ResponseBody::StaticBytes(Box::leak(body.clone().into_boxed_slice())),
+        // a file that is longer than the length recorded for it (it grew, or the length names a prefix): exactly that many bytes are sent
+        "file_prefix" => { std::fs::create_dir_all(&dir).unwrap(); let p = dir.join(format!("g{body_len}")); let mut longer = body.clone(); longer.extend_from_slice(b"HTTP/1.1 200 OK\r\ncontent-length: 0\r\n\r\n"); std::fs::write(&p, &longer).unwrap(); ResponseBody::File(p, body_len as u64) }
         _ => { std::fs::create_dir_all(&dir).unwrap(); let p = dir.join(format!("f{body_len}")); std::fs::write(&p, &body).unwrap(); ResponseBody::File(p, body_len as u64) }
     };
     let resp = Response::new(200).with_body(rb);
@@ -122,6 +124,8 @@ fn run_kind(kind: &str, body_len: usize, chunk: usize) -> Option<String> {
     if r.is_err() { return Some(format!("{desc} expected=Ok actual={r:?}")); }
     let p = match parse(&w.out) { Ok(p) => p, Err(e) => return Some(format!("{desc} expected=well-formed actual=invalid({e})")) };
     if p.body != body { return Some(format!("{desc} expected=body-intact actual=differs")); }
+    let head_end = w.out.windows(4).position(|x| x == b"\r\n\r\n").map(|i| i + 4).unwrap_or(0);
+    if w.out.len() != head_end + body.len() { return Some(format!("{desc} expected={} body bytes after the head actual={}", body.len(), w.out.len() - head_end)); }
     None
 }
 /// every content type the library knows (and an application-supplied one): the field is there iff a type is set, once,
@@ -154,6 +158,7 @@ fn stream_cases() -> Vec<(Vec<usize>, usize, u16)> {
 }
 fn kind_cases() -> Vec<(&'static str, usize, usize)> {
     let mut v = Vec::new();
+    for bl in [1usize, 10, 4096, 16383, 16384, 16385, 65536, 100000] { for ch in [usize::MAX, 4099] { v.push(("file_prefix", bl, ch)); } }
     for k in ["static_str", "static_bytes", "file"] { for bl in [0usize, 1, 65535, 65536, 65537, 200000] { for ch in [usize::MAX, 4099] { v.push((k, bl, ch)); } } }
     // text bodies that are not ASCII: the length is the number of bytes, not of characters
     for bl in [1usize, 100, 1000, 1100, 70000] { for ch in [usize::MAX, 5] { v.push(("static_utf8", bl, ch)); } }
